@@ -482,6 +482,22 @@ def open_race_native(ck):
         if not f or int(f.get('accesses_in_new', '0')) < k:
             break
         k += 1
+    # the client opens the segment while an update is in flight (odd generation, half of the record words new); the update completes
+    # at access #k of the constructor: the first snapshot must be the completed record as a whole (or an error), never a mixture
+    k = 1
+    while k <= 8 and not ck.violations:
+        out = rp.ask('open_race %d mid' % k)
+        f = dict(x.split('=', 1) for x in out.split()[1:] if '=' in x) if out.startswith('ok') else {}
+        runs.append({'update_in_flight_completed_at_access': k, 'out': out[:120]})
+        ck.cov['evaluations'] += 1
+        ws = f.get('snapshot_words')
+        if ws is not None and ws != 'BBBBBBB' and not ws.startswith('err_'):
+            ck.violation('stale-when-idle', 'a client opens the segment while an update is in flight (generation odd, words 0-3 of record B written over record A); the update completes at shared-memory access #%s of ShmReader::new (of %s); the writer is idle afterwards and the first snapshot() returns the words %s (A = previous record, B = the completed one): not the last completed publication'
+                         % (f.get('completed_at'), f.get('accesses_in_new'), ws), {'cmd': 'open_race %d mid' % k, 'native': out})
+            break
+        if not f or int(f.get('accesses_in_new', '0')) < k:
+            break
+        k += 1
     rp.close()
     ck.cov['native_open_race'] = runs
     return runs
